@@ -1,6 +1,7 @@
 package c03rpc
 
 import (
+	"crypto/sha1"
 	"encoding/binary"
 	"encoding/hex"
 	"encoding/json"
@@ -38,9 +39,13 @@ func (o *obs) base(ev string, n *node, s *srv, via string, h uint32) map[string]
 }
 
 // dropped records a request that got no JSON-RPC response at all (a handler that died takes the connection with it).
-func (o *obs) dropped(n *node, s *srv, method, class string, err error) {
-	o.tr.Emit(map[string]any{"event": "malformed", "node": n.name, "cfg": n.keep, "srv": s.name, "via": "raw", "method": method, "class": class,
-		"answered": false, "err": fmt.Sprint(err)})
+func (o *obs) dropped(n *node, s *srv, method, class string, err error, h ...uint32) {
+	ev := map[string]any{"event": "malformed", "node": n.name, "cfg": n.keep, "srv": s.name, "via": "raw", "method": method, "class": class,
+		"answered": false, "err": fmt.Sprint(err), "at": n.bc.BlockHeight()}
+	if len(h) > 0 {
+		ev["about"], ev["retained"] = h[0], n.retained(h[0])
+	}
+	o.tr.Emit(ev)
 }
 
 func pick(r *rand.Rand) (via string, pfx bool) {
@@ -700,6 +705,10 @@ func canon(state string, stack []json.RawMessage) string {
 		b, _ := json.Marshal(x) // maps are written with sorted keys
 		out += "|" + string(b)
 	}
+	if len(out) > 96 { // long answers travel as a digest (plus their beginning, for the reader of a replay)
+		d := sha1.Sum([]byte(out))
+		out = out[:64] + "...#" + hex.EncodeToString(d[:10])
+	}
 	return out
 }
 
@@ -789,7 +798,7 @@ func (o *obs) invokeHistoric(n *node, s *srv, h uint32, how string, bhash, root 
 			}
 			r, e, err := s.raw("invokefunctionhistoric", first, le160(c.Hash, pfx), c.Method, c.rawParams(o.r))
 			if err != nil {
-				o.dropped(n, s, "invokefunctionhistoric", "wellformed", err)
+				o.dropped(n, s, "invokefunctionhistoric", "wellformed", err, h)
 				results = append(results, "UNAVAILABLE")
 				continue
 			}
